@@ -1,4 +1,4 @@
-\* EXPECTED VIOLATION (what the code does; replayed on the real code with a gate by vsl scenario gate_remove_race): the two critical sections of removeConnection let an older session delete the adjacency edge a newer session of the same peer has just entered
+\* EXPECTED VIOLATION (code as found, before the third repair; replayed on the real code with a gate by vsl scenario gate_remove_race): the two critical sections of removeConnection let an older session delete the adjacency edge a newer session of the same peer has just entered
 SPECIFICATION Spec
 CONSTANTS
   Links = {1}
@@ -12,6 +12,8 @@ CONSTANTS
   Coarse = FALSE
   RealNodes = {"b"}
   CancelOnReturn = TRUE
+  SkipOnBackendCancel = FALSE
+  EdgeGuard = FALSE
   BSilence = 0
   BCut = 0
   ShutNodes = {}
